@@ -177,6 +177,8 @@ func (e *Exec) harnessIntrinsic(short string, args []Value) (Value, bool) {
 			e.nondetCap = val != 0
 		case "fifo":
 			e.fifoSched = val != 0
+		case "selectfirst":
+			e.selectFirst = val != 0
 		case "race":
 			e.raceOn = val != 0
 		case "maxsteps":
